@@ -22,6 +22,7 @@ type Clause struct {
 
 type LoopContract struct {
 	Invariants []*Clause
+	Entry      []*Clause // proved when the loop is entered; not assumed at the loop head
 	Decreases  *Clause
 	Modifies   []*Clause
 }
@@ -89,7 +90,7 @@ func NewContracts() *Contracts {
 
 var defRe = regexp.MustCompile(`^(\w+)\((.*?)\)\s*([\w\[\]]+)?\s*=\s*(.*)$`)
 var labelRe = regexp.MustCompile(`^([A-Za-z0-9_\-\.]+):\s+(.*)$`)
-var clauseKinds = map[string]bool{"axiom": true, "requires": true, "ensures": true, "invariant": true, "decreases": true, "modifies": true, "callsite": true}
+var clauseKinds = map[string]bool{"axiom": true, "requires": true, "ensures": true, "invariant": true, "entry": true, "decreases": true, "modifies": true, "callsite": true}
 
 func (c *Contracts) errf(file string, line int, f string, a ...interface{}) {
 	c.Errs = append(c.Errs, fmt.Sprintf("%s:%d: %s", file, line, fmt.Sprintf(f, a...)))
@@ -374,6 +375,8 @@ func (c *Contracts) LoadFile(path, source string) error {
 			switch first {
 			case "invariant":
 				curL.Invariants = append(curL.Invariants, cl)
+			case "entry":
+				curL.Entry = append(curL.Entry, cl)
 			case "decreases":
 				curL.Decreases = cl
 			case "modifies":
